@@ -87,3 +87,10 @@ package iqr
 //@   assumed
 //@   modifies ghost(iqr, "iqrN"), iqr.rrcs, iqr.isDirty
 //@ end
+
+// adds computed columns to the IQR: frame ASSUMED (by reading) — the IQR's own
+// mode / dirty flag and its column map, nothing of the processor that calls it
+//@ func (*IQR).AppendKnownValues
+//@   assumed
+//@   modifies iqr.isDirty, iqr.mode, mapof(iqr.knownValues)
+//@ end
